@@ -54,9 +54,11 @@ def model_checks(ctx):
     every_list = ('(Sels({1}, {AllReq}, Reqs(%s), %s) \\cup Sels({NONE}, Reqs(%s), {AllReq}, {"count"}) \\cup '
                   'Sels({NONE}, Reqs({<<6, 2>>, <<4>>, <<14, 6, 4>>}), Reqs({<<1>>, <<2, 0>>, <<7, 2>>}), %s))'
                   % (lc, both, lz, both))
-    s3d = ('Sels({NONE, 2}, {AllReq, %s}, {AllReq, %s, %s}, {"mean", "max", "min", "sum", "std", "var", "count"})'
-           % (req("<<4, 2>>"), req("<<3>>"), req("<<3, 9, 5>>")))
     thorough = ctx.tier == "thorough"
+    # quick: four of the seven aggregates in the model (R runs all seven on every enumerated 3-D raster)
+    aggs3 = '{"mean", "max", "min", "sum", "std", "var", "count"}' if thorough else '{"mean", "max", "std", "count"}'
+    s3d = ('Sels({NONE, 2}, {AllReq, %s}, {AllReq, %s, %s}, %s)'
+           % (req("<<4, 2>>"), req("<<3>>"), req("<<3, 9, 5>>"), aggs3))
     # the code of today: every invariant holds, for proper cat_ids subsets and non-ascending zone_ids too
     mc(ctx, "today_n3", 2, "AllRasters2D(3, %s, %s)" % (za, va), main)
     mc(ctx, "today_neginf_n3", 2, "AllRasters2D(3, %s, {0, 1, NAN})" % zan, hard)
@@ -214,6 +216,47 @@ def matrix_jobs(seed, nrasters, tag="layout_matrix"):
                     j["layer"] = LAYERS[(k + a + c) % 5]
                 jobs.append(j)
     return jobs
+
+
+def seq_jobs(seed, count, tag="sequence"):
+    """call sequences on the SAME DataArray objects: crosstab, edit zones and/or values in place, crosstab again
+    (same or other agg / selection), twice.  share = zones: same zones object, new values object per call; values:
+    vice versa."""
+    rng = random.Random(seed * 7919 + 13)
+    base = [j for j in random_jobs(seed + 31, 4 * count) if j["H"] > 1][:count]
+    out = []
+    for b in base:
+        b = dict(b, zdt="float64", vdt="float64", tag=tag)
+        if "nd_raw" in b:
+            del b["nd_raw"]
+            b["nd"] = NONE
+        W, dim = b["W"], b["dim"]
+        zpool = sorted({c for c in b["z"] if U.finite(c)}) + [6, NAN]
+        flat = [c for l in b["v"] for c in l if U.finite(c)]
+        vpool = sorted(set(flat))[:6] + [NAN]
+        steps, z, layers = [b], list(b["z"]), [list(l) for l in b["v"]]
+        for _k in range(2):
+            what = rng.choice(["z", "z", "v", "zv"])
+            if "z" in what:
+                z = U.mutate_codes(rng, z, W, zpool)
+            if "v" in what and vpool:
+                layers = [U.mutate_codes(rng, l, W, vpool) for l in layers]
+            nj = dict(steps[-1], z=list(z), v=[list(l) for l in layers])
+            if rng.random() < 0.5:      # other agg / selection on the edited objects
+                present = sorted({c for c in z if U.finite(c)})
+                nj["zall"] = rng.random() < 0.4
+                nj["zids"] = [] if nj["zall"] else rng.choice([present[:1], present[::-1], present[1:] + [998]])
+                if dim == 2:
+                    uni = sorted({c for c in layers[0] if U.finite(c) and c != nj["nd"]})
+                    nj["call"] = rng.random() < 0.5
+                    nj["cids"] = [] if nj["call"] else rng.sample(uni + [997], rng.randrange(0, len(uni) + 2))
+                    nj["agg"] = rng.choice(["count", "percentage"])
+                else:
+                    nj["agg"] = rng.choice(AGG3)
+            steps.append(nj)
+        out.append({"fn": "seq", "share": rng.choice(["both", "both", "zones", "values"]), "steps": steps,
+                    "backend": "numpy", "tag": tag})
+    return out
 
 
 def random_jobs(seed, count, backend="numpy", tag="random"):
@@ -374,6 +417,8 @@ def handle(ctx, fails, cases, verdicts, kind):
     for i, case in enumerate(cases):
         ctx.evaluations += 1
         job = case["job"]
+        if "focus" in job:
+            kind = "call %d of a sequence on shared objects (share=%s)" % (job["focus"] + 1, job["seq_job"]["share"])
         desc = ("%s %dD %dx%d agg=%s backend=%s zones=%s values=%s cats=%s nodata=%s zone_ids=%s cat_ids=%s"
                 % (kind, case["dim"], job["H"], job["W"], case["agg"], job.get("backend"), case["z"], case["vs"],
                    case["cats"], case["nd"], "None" if case["zall"] else case["zids"],
@@ -408,6 +453,7 @@ def run_batch(ctx, fails, jobs, name, kind, size=80000):
     for part in U.chunks(jobs, size):
         cases = core.run_jobs("zonal_worker", part, nproc=U.nproc_for(part))
         U.check_worker(cases)
+        cases = U.flatten(cases)
         idx = [i for i, c in enumerate(cases) if "error" not in c]
         good = [cases[i] for i in idx]
         v = ctx.judge("Crosstab_Judge", [U.strip(c) for c in good], name="%s_%d" % (name, done),
@@ -437,8 +483,10 @@ def scope_check(ctx, jobs, n, zalpha, valpha, layers, name):
 def replay(ctx, rec):
     """re-run exactly the recorded case through the real code and the judge"""
     job = rec["case"] if "fn" in rec["case"] else rec["case"]["job"]
+    job = job.get("seq_job", job)          # a step of a call sequence: re-run the whole sequence
     cases = core.run_jobs("zonal_worker", [job], nproc=1)
     U.check_worker(cases)
+    cases = U.flatten(cases)
     fails = U.Failures(ctx)
     good = [c for c in cases if "error" not in c]
     v = ctx.judge("Crosstab_Judge", [U.strip(c) for c in good], name="replay",
@@ -446,7 +494,7 @@ def replay(ctx, rec):
     handle(ctx, fails, cases, v if good else {}, "replay")
     ctx.sample({"replayed": rec.get("clause"), "key": rec.get("key"),
                 "verdict": v.get(0) if good else cases[0].get("error")})
-    print("REPLAY verdict: %s" % (v.get(0) if good else cases[0].get("error")), flush=True)
+    print("REPLAY verdict: %s" % ([v.get(k) for k in range(len(good))] if good else cases[0].get("error")), flush=True)
     fails.report()
 
 
@@ -479,6 +527,7 @@ def run(ctx):
     # ---- T: seeded larger rasters (same worker processes / judge JVMs as R: start-up dominates the quick tier)
     jobs += random_jobs(ctx.seed, ctx.pick(1500, 40000))
     jobs += matrix_jobs(ctx.seed, ctx.pick(60, 600))
+    jobs += seq_jobs(ctx.seed, ctx.pick(300, 3000))
     run_batch(ctx, fails, jobs, "replay_and_random", "R/T")
     if thorough:
         run_batch(ctx, fails, enum_jobs_2d(ctx.seed + 3, 4, ZC, VC, per_raster=2, tag="all_n4"), "replay_n4", "R")
